@@ -449,22 +449,62 @@ func (s *Solver) readSexp() (string, bool) {
 	}
 }
 
-func (s *Solver) getModel(vars []*Term, selects []*Term) *Model {
-	m := NewModel()
+type modelReq struct {
+	t    *Term // var or select
+	kind int   // 0 var, 1 select value (const index), 2 select index, 3 select value (symbolic index)
+}
+
+func modelExprs(vars, selects []*Term, declared func(string) bool, defined func(int) bool) ([]string, []modelReq) {
 	var exprs []string
-	var kinds []*Term
+	var reqs []modelReq
 	for _, v := range vars {
-		if s.isDeclared(v.Name) {
+		if declared(v.Name) {
 			exprs = append(exprs, v.Name)
-			kinds = append(kinds, v)
+			reqs = append(reqs, modelReq{v, 0})
 		}
 	}
 	for _, sel := range selects {
-		if s.isDeclared(sel.Name) && sel.Args[0].IsConst() {
+		if !declared(sel.Name) {
+			continue
+		}
+		if sel.Args[0].IsConst() {
 			exprs = append(exprs, fmt.Sprintf("(select %s %s)", sel.Name, sel.Args[0].Ref()))
-			kinds = append(kinds, sel)
+			reqs = append(reqs, modelReq{sel, 1})
+		} else if defined(sel.ID) {
+			exprs = append(exprs, sel.Args[0].Ref(), sel.Ref())
+			reqs = append(reqs, modelReq{sel, 2}, modelReq{sel, 3})
 		}
 	}
+	return exprs, reqs
+}
+
+func fillModel(m *Model, reqs []modelReq, vals []uint64) {
+	var lastIdx uint64
+	for k, v := range vals {
+		r := reqs[k]
+		switch r.kind {
+		case 0:
+			m.Vars[r.t.Name] = v
+		case 1:
+			if m.Arrays[r.t.Name] == nil {
+				m.Arrays[r.t.Name] = map[uint64]uint8{}
+			}
+			m.Arrays[r.t.Name][r.t.Args[0].Val] = uint8(v)
+		case 2:
+			lastIdx = v
+		case 3:
+			if m.Arrays[r.t.Name] == nil {
+				m.Arrays[r.t.Name] = map[uint64]uint8{}
+			}
+			m.Arrays[r.t.Name][lastIdx] = uint8(v)
+		}
+	}
+}
+
+func (s *Solver) getModel(vars []*Term, selects []*Term) *Model {
+	m := NewModel()
+	exprs, reqs := modelExprs(vars, selects, s.isDeclared, s.isDefined)
+	var all []uint64
 	for i := 0; i < len(exprs); i += 200 {
 		j := i + 200
 		if j > len(exprs) {
@@ -479,23 +519,14 @@ func (s *Solver) getModel(vars []*Term, selects []*Term) *Model {
 		if !ok {
 			return nil
 		}
-		for k, v := range vals {
-			t := kinds[i+k]
-			if t.Op == "var" {
-				m.Vars[t.Name] = v
-			} else {
-				if m.Arrays[t.Name] == nil {
-					m.Arrays[t.Name] = map[uint64]uint8{}
-				}
-				m.Arrays[t.Name][t.Args[0].Val] = uint8(v)
-			}
-		}
+		all = append(all, vals...)
 	}
+	fillModel(m, reqs, all)
 	return m
 }
 
 // Script renders the current stack (+extra) as a standalone SMT-LIB2 problem.
-func (s *Solver) Script(extra *Term, wantModel bool, vars []*Term, selects []*Term, useQfbv bool) (string, []*Term) {
+func (s *Solver) Script(extra *Term, wantModel bool, vars []*Term, selects []*Term, useQfbv bool) (string, []modelReq) {
 	var roots []*Term
 	for _, lv := range s.asserted {
 		roots = append(roots, lv...)
@@ -507,7 +538,7 @@ func (s *Solver) Script(extra *Term, wantModel bool, vars []*Term, selects []*Te
 }
 
 // RenderScript prints a standalone problem asserting all roots.
-func RenderScript(roots []*Term, wantModel bool, vars []*Term, selects []*Term, useQfbv bool) (string, []*Term) {
+func RenderScript(roots []*Term, wantModel bool, vars []*Term, selects []*Term, useQfbv bool) (string, []modelReq) {
 	var sb strings.Builder
 	sb.WriteString("(set-option :produce-models true)\n(set-logic ALL)\n")
 	declared := map[string]bool{}
@@ -540,21 +571,10 @@ func RenderScript(roots []*Term, wantModel bool, vars []*Term, selects []*Term, 
 	} else {
 		sb.WriteString("(check-sat)\n")
 	}
-	var kinds []*Term
+	var kinds []modelReq
 	if wantModel {
 		var exprs []string
-		for _, v := range vars {
-			if declared[v.Name] {
-				exprs = append(exprs, v.Name)
-				kinds = append(kinds, v)
-			}
-		}
-		for _, sel := range selects {
-			if declared[sel.Name] && sel.Args[0].IsConst() {
-				exprs = append(exprs, fmt.Sprintf("(select %s %s)", sel.Name, sel.Args[0].Ref()))
-				kinds = append(kinds, sel)
-			}
-		}
+		exprs, kinds = modelExprs(vars, selects, func(n string) bool { return declared[n] }, func(id int) bool { return seen[id] })
 		for i := 0; i < len(exprs); i += 200 {
 			j := i + 200
 			if j > len(exprs) {
@@ -683,17 +703,7 @@ func RunPortfolio(roots []*Term, wantModel bool, vars, selects []*Term, b Backen
 					ch <- res{"unknown", nil, cfg.name}
 					return
 				}
-				for k, v := range all {
-					t := kinds[k]
-					if t.Op == "var" {
-						m.Vars[t.Name] = v
-					} else {
-						if m.Arrays[t.Name] == nil {
-							m.Arrays[t.Name] = map[uint64]uint8{}
-						}
-						m.Arrays[t.Name][t.Args[0].Val] = uint8(v)
-					}
-				}
+				fillModel(m, kinds, all)
 				ch <- res{"sat", m, cfg.name}
 			default:
 				ch <- res{"unknown", nil, cfg.name}
